@@ -576,7 +576,7 @@ been initialized
                 try:
                     output.write(render)
                     output.flush()
-                except (KeyboardInterrupt, Exception):
+                except BaseException:
                     self._handle_interrupted_draw_(
                         render_data, real_render_args, output
                     )
@@ -768,7 +768,7 @@ been initialized
             except KeyboardInterrupt:
                 self._handle_interrupted_draw_(render_data, render_args, output)
                 return
-            except Exception:
+            except BaseException:
                 self._handle_interrupted_draw_(render_data, render_args, output)
                 raise
             else:
@@ -805,7 +805,7 @@ been initialized
                 except KeyboardInterrupt:
                     self._handle_interrupted_draw_(render_data, render_args, output)
                     return
-                except Exception:
+                except BaseException:
                     self._handle_interrupted_draw_(render_data, render_args, output)
                     raise
 
